@@ -190,7 +190,14 @@ pub fn mutate(kind: &FaultKind, pristine: &[u8], file_name: &str) -> Option<(Vec
             // `- t: "x"` (block) or `[t: "x"]` (flow)
             let lines = lines_where(&text, |l| {
                 let t = l.trim_start();
-                (t.starts_with("- t: \"") || t.starts_with("- T: \"")) || l.contains("[t: \"") || l.contains("[T: \"")
+                // not a commented-out line, and a flow-style replacement must come before any trailing comment
+                let flow = l.find("[t: \"").or_else(|| l.find("[T: \""));
+                let flow_ok = match (flow, l.find('#')) {
+                    (Some(f), Some(c)) => f < c,
+                    (Some(_), None) => true,
+                    _ => false,
+                };
+                !t.starts_with('#') && (t.starts_with("- t: \"") || t.starts_with("- T: \"") || flow_ok)
             });
             if lines.is_empty() {
                 return None;
